@@ -66,9 +66,11 @@ Init == /\ reg = <<>> /\ dict = <<>> /\ ops = <<>>
            \/ /\ mode = "nest"
               /\ scen \in UNION {{[nesting |-> n, path |-> p] : p \in Paths(n, <<>>)} : n \in Nestings}
            \/ /\ mode = "customize"
-              /\ scen \in {[hide |-> h, hide_line |-> hl, prune |-> p, elab |-> e, form |-> f] :
+              \* then: a SECOND customize() of the same target that asks for nothing, in either form -- a registration like
+              \* any other, so it replaces the first (the latest registration wins)
+              /\ scen \in {[hide |-> h, hide_line |-> hl, prune |-> p, elab |-> e, form |-> f, then |-> t] :
                              h \in BOOLEAN, hl \in BOOLEAN, p \in BOOLEAN, e \in {"none", "returns_none", "replace"},
-                             f \in {"direct", "decorator"}}
+                             f \in {"direct", "decorator"}, t \in {"none", "reset_direct", "reset_decorator"}}
            \/ mode = "registry" /\ scen = [x |-> 0]
            \/ mode = "idict" /\ scen = [x |-> 0]
 
@@ -127,7 +129,9 @@ DictWellFormed == \A i, j \in 1..Len(dict) : i # j => dict[i][1] # dict[j][1]
 RegWellFormed == \A i, j \in 1..Len(reg) : i # j => reg[i][1] # reg[j][1]
 
 Export == [mode |-> mode, scen |-> scen, ops |-> ops, dict |-> dict,
-           effect |-> IF mode = "customize" THEN CustomizeEffect(scen.hide, scen.hide_line, scen.prune, scen.elab)
+           effect |-> IF mode = "customize"
+                      THEN (IF scen.then = "none" THEN CustomizeEffect(scen.hide, scen.hide_line, scen.prune, scen.elab)
+                            ELSE CustomizeEffect(FALSE, FALSE, FALSE, "none"))
                       ELSE [hide |-> FALSE, hide_line |-> FALSE, rest |-> "-"]]
 Emit == (mode \in {"tower", "nest", "customize"} \/ Len(ops) = MaxOps) => PrintT(<<"EMIT", ToJson(Export)>>)
 =============================================================================
